@@ -29,7 +29,11 @@
        the case after its INSERT went through and its commit failed), leaves the invariants intact, and for
        deletes leaves nothing of what was beneath the target before the first attempt, including
        private keys.  A retried touch_identity may return an identity without keys.
-     - get_signer({'cert': c}) is only quantified for c present in the store or c of a deleted key. *)
+     - get_signer({'cert': c}) is only quantified for c present in the store or c of a deleted key.
+     - what get_signer returns is a *value* [key, key locator] (Plan(o, S).res), fixed at the moment it is
+       returned: a later call does not change a signer handed out earlier.  The executor keeps the last
+       signers it was given and re-probes them (verifying key, key locator) after later GetSigner /
+       ImportCert / SetDefCert steps and at the end of a history, for as long as their key exists. *)
 EXTENDS Naturals, Sequences, FiniteSets, TLC
 
 CONSTANTS Ids, MaxKeys, Depth, MaxLevel, MaxFaults, DevScope, DevCacheLoc, DevDelKey
